@@ -158,6 +158,7 @@ fn budget(prop: &str, tier: &str, seed: u64, scale: f64) -> Budget {
                 sweeps.push(sweeps::c03_single_codeword(seed, if quick { 6 } else { 255 }));
                 sweeps.push(sweeps::c03_single_data_pixel(seed));
                 sweeps.push(sweeps::c03_impostor_messages());
+                sweeps.push(sweeps::c03_mimic_boundaries(seed));
                 sweeps.push(sweeps::c03_edge_pairs(seed, if quick { 10 } else { 255 }));
                 if !quick {
                     sweeps.push(sweeps::c03_sq10_weight2(seed));
@@ -175,10 +176,13 @@ fn budget(prop: &str, tier: &str, seed: u64, scale: f64) -> Budget {
             sweeps.push(sweeps::c05_short_streams(!quick, !quick && checked));
             sweeps.push(sweeps::c05_base256_lengths(seed, if quick { 600 } else { 1600 }));
             sweeps.push(sweeps::c05_eci_charset_bytes());
+            sweeps.push(sweeps::c05_eci_two_byte_designators(true));
+            sweeps.push(sweeps::c05_eci_three_byte_designators(true));
             sweeps.push(sweeps::c05_long_streams());
             sweeps.push(sweeps::c05_c40_value_sequences());
             sweeps.push(sweeps::c05_charset_sections());
             sweeps.push(sweeps::c05_repeated_atoms());
+            sweeps.push(sweeps::c05_pad_structures());
             sweeps.push(sweeps::structured_data_fills("C05"));
             if checked || !quick {
                 sweeps.push(sweeps::c05_huge_positions());
